@@ -147,8 +147,10 @@ theorem processBunch_adds {P : Event → Prop} (hP : RecvPred P) (c : Conn) (x :
   · exact Adds.emit _ _ (hf _)
   · split
     · split
-      · exact setChan_adds _ _ _ _
       · exact Adds.emit _ _ (hf _)
+      · split
+        · exact setChan_adds _ _ _ _
+        · exact Adds.emit _ _ (hf _)
     · exact receivedNextBunch_adds hP _ _
 
 theorem dispatchAll_adds {P : Event → Prop} (hP : RecvPred P) (c : Conn) (ch : Nat) : Adds P c (c.dispatchAll ch) := dispatchWaiting_adds hP _ _ _
